@@ -1,0 +1,7 @@
+//go:build !verif
+
+package protocol
+
+const verifSegEnabled = false
+
+func verifSegTrace(p *Protocol, kind string, size, pending, limit int) {}
